@@ -371,6 +371,25 @@ func addrUsedForAccessOnly(v ssa.Value, readOnly bool) bool {
 func (f *Frame) publish(objs provSet, except map[string]bool) {
 	ex := f.ex
 	for _, o := range objs.sorted() {
+		if o.isRange {
+			already := false
+			for _, pr := range f.st.published {
+				if pr.obj == o && (pr.cond == f.pc || pr.cond == "true") {
+					already = true
+				}
+			}
+			if already {
+				continue
+			}
+			for _, h := range o.rheaps {
+				if ex.mutable[h] || except[h] {
+					continue
+				}
+				ex.assume(implies(f.pc, "(forall ((a Int)) (! (=> (and (<= "+o.lo+" a) (< a "+o.hi+")) (= (select "+ex.frozen(h)+" a) (select "+ex.heapTerm(f.st, h)+" a))) :pattern ((select "+ex.frozen(h)+" a))))"))
+			}
+			f.st.published = append(f.st.published, pubRec{o, f.pc})
+			continue
+		}
 		if ex.mutable[o.heap] || except[o.heap] {
 			continue
 		}
@@ -405,6 +424,35 @@ func (f *Frame) contractEnv(ct *FuncContract, bind map[string]string, cur, old *
 		for _, l := range ct.Lets {
 			if l.Name == a {
 				return substSXb(l.Term, env, nil, isOld), true
+			}
+		}
+		if strings.HasPrefix(a, "$p.") {
+			// a parameter of the function being verified (for `calls` contracts, whose own names shadow them)
+			top := f
+			for top.parent != nil {
+				top = top.parent
+			}
+			for _, p := range top.fn.Params {
+				if p.Name() == a[3:] {
+					return top.val(p).T, true
+				}
+			}
+		}
+		if strings.Contains(ct.Key, "!") && f.ex.top != nil && ct != f.ex.top {
+			// `calls` contracts may use the let-definitions of the enclosing contract
+			for _, l := range f.ex.top.Lets {
+				if l.Name == a {
+					return substSXb(l.Term, env, nil, isOld), true
+				}
+			}
+			top := f
+			for top.parent != nil {
+				top = top.parent
+			}
+			for _, p := range top.fn.Params {
+				if p.Name() == a {
+					return top.val(p).T, true
+				}
 			}
 		}
 		return "", false
@@ -663,7 +711,13 @@ func (f *Frame) inlineCall(callee *ssa.Function, ct *FuncContract, args []Val, c
 	if ct != nil {
 		ex.funcsUsed[ct.Key] = "inlined"
 	}
-	child.onPanic = func(cond, kind, anchor string) { f.onPanic(cond, kind, shortName(ex.P.keyOf(callee))+"."+anchor) }
+	child.onPanic = func(cond, kind, anchor string, st *State) {
+		// a panic leaving the inlined callee is a panic at this call site of the caller
+		save := f.st
+		f.st = st
+		f.raise(cond, kind, shortName(ex.P.keyOf(callee))+"."+anchor)
+		f.st = save
+	}
 	for i, p := range callee.Params {
 		if i < len(args) {
 			v := args[i]
